@@ -18,3 +18,8 @@ check('C06',
   'Every ordered table of up to 2 (thorough 3) routes from an 11-route pool x all 16 option subsets x 6 InterceptAll values x default/custom NotFound and NotAllowed handlers is built; all 10 methods x 8 paths are resolved twice through Match and ServeHTTP and compared with the documented resolution order (direct, HEAD->GET, fallback route, 405 with exact allowed set / Allow header / OPTIONS 200, 404).',
   'Bounded tables and path alphabet; reference resolver trusted.',
   'DESIGN.md 5 C06')
+check('C07',
+  'explicit-state model checking to fix-point over request histories (cache-state graph) with a non-caching twin as oracle',
+  'For 7 route tables x 4 option subsets x capacities 0..3 (thorough 0..4) the complete graph of reachable cache states of the real router is explored breadth-first (state = cache keys in recency order with the route and params each entry holds); in every state every request of an 11/14-request alphabet (hits, misses, evictions, HEAD->GET, 405 probes, fallback route, 404) is executed through Match and ServeHTTP and must observe exactly what the same router without caching observes. Fix-point reached: every state x every request.',
+  'The canonical state is the cache content only (tables/options are frozen after registration, contexts are reset - C10). Bounded request alphabet and tables.',
+  'DESIGN.md 5 C07')
